@@ -305,7 +305,7 @@ func (s *Schema) control() (err error) {
 
 	// verifying index integrity (longer process so done at last)
 	// we control any index corruption
-	if uuids, err = uuidsFromDir(dir); err != nil && !os.IsNotExist(err) {
+	if uuids, err = objectsFromDir(dir, s.filenameFromUUID); err != nil && !os.IsNotExist(err) {
 		return
 	}
 
